@@ -297,6 +297,8 @@ class Interp:
         raise Undefined("unbound " + name)
 
     def ev(self, e, env, genv):
+        if e[0] == "const":
+            return e[1]
         self.tick()
         k = e[0]
         if k in ("int", "bool", "str"):
@@ -481,11 +483,12 @@ class Interp:
         elif k == "switch":
             _, tag, cases, default = s
             conds = []
+            tagv = None if tag is None else self.ev(tag, env, genv)       # Go: the tag is evaluated exactly once
             for c, _ in cases:
                 if tag is None:
                     conds.append(self.ev(c, env, genv) is True)
                 else:
-                    conds.append(self.ev(tag, env, genv) == self.ev(c, env, genv))
+                    conds.append(tagv == self.ev(c, env, genv))
             try:
                 for c, (_, body) in zip(conds, cases):
                     if c:
@@ -504,6 +507,10 @@ class Interp:
                 init, cond, incr, body = None, None, None, s[1]
             else:
                 _, iv, vv, it, body0 = s
+                if _has_call(it):
+                    # Go: the range expression is evaluated exactly once, before the loop
+                    snapshot = self.ev(it, env, genv)
+                    it = ("const", snapshot)
                 init = ("assign", [iv], [("int", 0)])
                 env.setdefault(iv, 0)
                 cond = ("cmp", "<", ("var", iv), ("len", it))
@@ -1197,6 +1204,8 @@ def generate(rng, cfg, tries=50):
         g.kinds["_panic_in_func"] = LAST.panic_in_func
         g.kinds["_switch_break"] = LAST.switch_break
         g.kinds["_switch_break_static"] = has_switch_break(prog)
+        g.kinds["_switch_tag_call"] = has_switch_tag_call(prog)
+        g.kinds["_range_call"] = has_range_call(prog)
         g.kinds["_empty_substr"] = LAST.empty_substr
         g.kinds["_minint"] = SAW_MININT
         return prog, pp_program(prog), out, status, g.kinds
@@ -1314,6 +1323,79 @@ def _defined_names(body, acc):
     return acc
 
 
+def _has_call(e):
+    if not isinstance(e, tuple):
+        return False
+    if e and e[0] == "call":
+        return True
+    for x in e[1:]:
+        if isinstance(x, tuple) and _has_call(x):
+            return True
+        if isinstance(x, list) and any(isinstance(y, tuple) and _has_call(y) for y in x):
+            return True
+    return False
+
+
+def has_switch_tag_call(body):
+    """a switch whose tag expression contains a function call and that has not exactly one case occurs in the program
+    (known finding switch-tag-evaluated-per-case: the tag is evaluated once per case - not at all without a case)"""
+    for s in body:
+        k = s[0]
+        if k == "switch":
+            if s[1] is not None and _has_call(s[1]) and len(s[2]) != 1:
+                return True
+            if any(has_switch_tag_call(b) for _, b in s[2]) or (s[3] is not None and has_switch_tag_call(s[3])):
+                return True
+        elif k == "if":
+            if any(has_switch_tag_call(b) for _, b in s[1]) or (s[2] is not None and has_switch_tag_call(s[2])):
+                return True
+        elif k == "for3":
+            if has_switch_tag_call(s[4]):
+                return True
+        elif k == "forcond":
+            if has_switch_tag_call(s[2]):
+                return True
+        elif k == "forever":
+            if has_switch_tag_call(s[1]):
+                return True
+        elif k == "forrange":
+            if has_switch_tag_call(s[4]):
+                return True
+        elif k == "func":
+            if has_switch_tag_call(s[4]):
+                return True
+    return False
+
+
+def has_range_call(body):
+    """a range loop whose range expression contains a function call occurs in the program (known finding
+    range-expression-re-evaluated: the desugared loop evaluates it again for every len() and element read)"""
+    for s in body:
+        k = s[0]
+        if k == "forrange":
+            if _has_call(s[3]) or has_range_call(s[4]):
+                return True
+        elif k == "switch":
+            if any(has_range_call(b) for _, b in s[2]) or (s[3] is not None and has_range_call(s[3])):
+                return True
+        elif k == "if":
+            if any(has_range_call(b) for _, b in s[1]) or (s[2] is not None and has_range_call(s[2])):
+                return True
+        elif k == "for3":
+            if has_range_call(s[4]):
+                return True
+        elif k == "forcond":
+            if has_range_call(s[2]):
+                return True
+        elif k == "forever":
+            if has_range_call(s[1]):
+                return True
+        elif k == "func":
+            if has_range_call(s[4]):
+                return True
+    return False
+
+
 def has_switch_break(body, inner=None):
     """a break whose innermost breakable construct is a switch occurs somewhere in the program (whether executed or not)"""
     for s in body:
@@ -1427,6 +1509,8 @@ def generate2(rng, cfg, transform=None, tries=50):
         g.kinds["_panic_in_func"] = LAST.panic_in_func
         g.kinds["_switch_break"] = LAST.switch_break
         g.kinds["_switch_break_static"] = has_switch_break(prog)
+        g.kinds["_switch_tag_call"] = has_switch_tag_call(prog)
+        g.kinds["_range_call"] = has_range_call(prog)
         g.kinds["_empty_substr"] = LAST.empty_substr
         g.kinds["_minint"] = SAW_MININT
         return prog, pp_program(prog), out, status, g.kinds
